@@ -4,7 +4,8 @@ import AscentVerif.Model.Syntax
 
 What `run()` / `run_timeout()` of a compiled Ascent program does, at the level of MIR:
 
-* `update_indices`: every row of every relation is (re-)inserted into the relation's indices;
+* `update_indices`: the indices of every relation are rebuilt from its rows (since fix 8b2e261;
+  before it every row was re-inserted on top of the entries left by an earlier call);
 * the rules are grouped into SCCs processed in a topological order; inside an SCC the head
   relations are *dynamic*: their index contents are split into `total` / `delta` / `new`;
 * every rule is compiled into one variant per `versions_base` vector
@@ -78,9 +79,10 @@ def readBag (cfg : Config) (d : RelDecl) (bag : List Nat) : List Nat :=
 
 /-! ## `update_indices` -/
 
-/-- every row number is inserted into every index of the relation (again) -/
+/-- every index of the relation is reset and every row number inserted: the indices are rebuilt
+from the rows, whatever an earlier call left in them -/
 def updateIndices (s : St) : St :=
-  s.map fun rs => { rs with idx := rs.idx ++ List.range rs.rows.length }
+  s.map fun rs => { rs with idx := List.range rs.rows.length }
 
 /-! ## SCCs: the rule dependency graph and a valid processing order -/
 
